@@ -13,24 +13,24 @@ Open Scope string_scope.
 Open Scope list_scope.
 
 (* work_in: whatever the wrapped function does and however the call ends, the working directory
-   afterwards is the one at call time (utils.py:230-241). *)
+   afterwards is the one at call time (utils.py:231-242). *)
 Theorem work_in_restores_cwd :
   forall ext (c : callee_t) s, cwd (snd (wrap (WWorkIn ext) c s)) = cwd s.
 Proof. intros ext c s. apply work_in_cwd. Qed.
 
 (* work_in removes nothing but its own directory, and that only when it is empty: either os.mkdir
-   failed (nothing changed), or the wrapped function ran in <cwd>/<ext> and the final directory set is
+   failed (injected fault, or a regular file of that name exists: nothing changed), or the wrapped function ran in <cwd>/<ext> and the final directory set is
    the one it left, minus <cwd>/<ext> exactly when that directory has no entries; files are untouched. *)
 Theorem work_in_removes_only_empty_dir :
   forall ext (c : callee_t) s,
   let d := cwd s ++ [ext] in let r := wrap (WWorkIn ext) c s in
-  (fst r = Raise (EFault FMkdir) /\ dirs (snd r) = dirs s /\ files (snd r) = files s) \/
+  ((fst r = Raise (EFault FMkdir) \/ fst r = Raise EExists) /\ dirs (snd r) = dirs s /\ files (snd r) = files s) \/
   (exists s0 s1, cwd s0 = d /\ In d (dirs s0) /\ incl (dirs s0) (d :: dirs s) /\ c s0 = (fst r, s1) /\
      files (snd r) = files s1 /\
      dirs (snd r) = if is_empty_dir s1 d then remove_path d (dirs s1) else dirs s1).
 Proof. intros ext c s. apply work_in_only_empty. Qed.
 
-(* work_in_tmp_dir: the working directory is restored on every path (utils.py:284-324). *)
+(* work_in_tmp_dir: the working directory is restored on every path (utils.py:285-327). *)
 Theorem tmpdir_restores_cwd :
   forall fns kept ll (c : callee_t) s, cwd (snd (wrap (WTmpDir fns kept ll) c s)) = cwd s.
 Proof. intros fns kept ll c s. apply tmpdir_cwd. Qed.
@@ -61,12 +61,14 @@ Theorem kept_files_copied_on_success :
 Proof. intros fns kept ll c s. apply tmpdir_kept_files. Qed.
 
 (* ... for EVERY wrapped function that succeeds, including one that returns from another directory
-   (utils.py:317 copies by full path): if the wrapped function returns normally whenever it is called
-   (and injects no fault), the decorated call returns normally too - or it failed before the wrapped
-   function was reached, in which case its result does not depend on the wrapped function at all. *)
+   (utils.py:319-321 copies by full path): if the wrapped function returns normally whenever it is
+   called and no fault is injected afterwards (every remaining entry of the fault tape is `false`: no
+   copy-back fails), the decorated call returns normally too - so by kept_files_copied_on_success the
+   kept files are in the calling directory - or it failed before the wrapped function was reached, in
+   which case its result does not depend on the wrapped function at all. *)
 Theorem kept_files_copied_wherever_callee_returns :
   forall fns kept ll (c : callee_t) s,
-  (forall s0, fst (c s0) = Ok /\ tape (snd (c s0)) = []) ->
+  (forall s0, fst (c s0) = Ok /\ no_more_faults (snd (c s0))) ->
   let r := wrap (WTmpDir fns kept ll) c s in
   fst r = Ok \/ (forall c', wrap (WTmpDir fns kept ll) c' s = r).
 Proof. intros fns kept ll c s. apply tmpdir_succeeds_wherever. Qed.
@@ -78,7 +80,7 @@ Theorem tmp_env_restored_on_return :
   env_get k (env (snd (wrap (WEnv vars) c s))) = env_get k (env s).
 Proof. intros vars c s k _ Hk. apply env_restored. exact Hk. Qed.
 
-(* ... and when it raises (utils.py:620-636: the restoration is in a finally block). *)
+(* ... and when it raises (utils.py:623-639: the restoration is in a finally block). *)
 Theorem tmp_env_restored_on_raise :
   forall vars (c : callee_t) s k e, fst (wrap (WEnv vars) c s) = Raise e -> In k (map fst vars) ->
   env_get k (env (snd (wrap (WEnv vars) c s))) = env_get k (env s).
@@ -100,7 +102,7 @@ Proof.
 Qed.
 
 (* temporary_config: every key present on entry has its entry value on exit, on return and on raise
-   (utils.py:59-64); keys that did not exist on entry are NOT removed by the update (stated). *)
+   (utils.py:60-65); keys that did not exist on entry are NOT removed by the update (stated). *)
 Theorem temporary_config_restores :
   forall (c : callee_t) s,
   cfg_kept (config s) (config (snd (wrap WConfig c s))) /\
@@ -155,19 +157,45 @@ Proof.
   intros ext s. apply work_in_at_most_its_dir. exact H.
 Qed.
 
+(* Nesting with an ARBITRARY innermost function and scratch directories: a work_in_tmp_dir layer below
+   any number of run_in_tmp_environment / temporary_config layers and above ANY stack: cwd is restored,
+   the scratch directory and everything below it is gone on every path, and if the call returns the kept
+   files the inner stack left in the scratch directory are in the calling directory. *)
+Theorem nesting_scratch_removed_any_callee :
+  forall outer fns kept ll inner (c : callee_t) s,
+  forallb transparent outer = true ->
+  let r := run_stack (outer ++ WTmpDir fns kept ll :: inner) c s in
+  let tmp := tmp_path_of ll s in
+  cwd (snd r) = cwd s /\
+  ((failed_before_mkdtemp (fst r) /\ dirs (snd r) = dirs s /\ files (snd r) = files s) \/
+   (forall p, In p (dirs (snd r)) \/ In p (files (snd r)) -> prefixb tmp p = false)) /\
+  (fst r = Ok -> exists s0 s1, run_stack inner c s0 = (Ok, s1) /\ cwd s0 = tmp /\
+     forall n, In (tmp ++ [n]) (files s1) -> kept_name kept n = true ->
+       prefixb tmp (cwd s ++ [n]) = false -> In (cwd s ++ [n]) (files (snd r))).
+Proof. intros outer fns kept ll inner c s T. apply through_transparent. exact T. Qed.
+
 (* The per-program execute closures (XTB, ORCA, G09, NWChem, MOPAC, QChem), as recorded from the
    source: for every program, every run-time argument, EVERY behaviour of the external program:
-   (1) cwd is restored and the scratch directory is gone (work_in_tmp_dir is outermost);
-   (2) every variable named by a run_in_tmp_environment decorator is restored;
-   (3) if the external program does not disturb cwd/env/config, neither does execute (no closure
+   (1) cwd is restored;
+   (2) the scratch directory (in the program's own base: use_ll_tmp as written in its decorator) is gone;
+   (3) if execute returns, every file with one of the program's kept extensions that the closure left in
+       the scratch directory is in the calling directory;
+   (4) every variable named by a run_in_tmp_environment decorator is restored;
+   (5) if the external program does not disturb cwd/env/config, neither does execute (no closure
        assigns os.environ itself);
-   (4) the external program is only ever started behind the memory check. *)
+   (6) the external program is only ever started behind the memory check.
+   The only shape assumed of a stack (checked on the generated table) is: run_in_tmp_environment layers, if
+   any, outside or inside work_in_tmp_dir - the order of the two is immaterial. *)
 Theorem execute_closures_restore :
   forall p, In p programs -> forall rt (ext : callee_t),
   (forall s, cwd (snd (run_program rt ext p s)) = cwd s) /\
-  (forall s, exists ll, let r := run_program rt ext p s in
+  (forall s, let r := run_program rt ext p s in
      (failed_before_mkdtemp (fst r) /\ dirs (snd r) = dirs s /\ files (snd r) = files s) \/
-     (forall q, In q (dirs (snd r)) \/ In q (files (snd r)) -> prefixb (tmp_path_of ll s) q = false)) /\
+     (forall q, In q (dirs (snd r)) \/ In q (files (snd r)) -> prefixb (tmp_path_of (prog_ll p) s) q = false)) /\
+  (forall s, let r := run_program rt ext p s in let tmp := tmp_path_of (prog_ll p) s in
+     fst r = Ok -> exists s0 s1, prog_inner rt ext p s0 = (Ok, s1) /\ cwd s0 = tmp /\
+       forall n, In (tmp ++ [n]) (files s1) -> kept_name (prog_kept rt p) n = true ->
+         prefixb tmp (cwd s ++ [n]) = false -> In (cwd s ++ [n]) (files (snd r))) /\
   (forall ks k, In (DEnv ks) (p_stack p) -> In k ks -> restores_env_at k (run_program rt ext p)) /\
   (restores ext -> restores (run_program rt ext p)) /\
   (exists e, In (BExternal e) (p_body p)) /\
@@ -175,9 +203,10 @@ Theorem execute_closures_restore :
      entry_callee rt ext e s = (Raise (EFault FMem), set_tape s t)).
 Proof.
   intros p Hp rt ext. destruct (program_in_shape p Hp) as [S1 [S2 [S3 S4]]].
-  destruct (run_program_tmpdir rt ext p S1) as [fns [kept [ll [c E]]]].
-  split; [intros s; rewrite E; apply tmpdir_cwd|].
-  split; [intros s; exists ll; rewrite E; apply tmpdir_removed|].
+  destruct (run_program_shape rt ext p S1) as [outer [fns [T E]]].
+  split; [intros s; rewrite E; apply (through_transparent outer fns _ _ [] _ s T)|].
+  split; [intros s; cbv zeta; rewrite E; apply (through_transparent outer fns _ _ [] _ s T)|].
+  split; [intros s; cbv zeta; rewrite E; apply (through_transparent outer fns _ _ [] _ s T)|].
   split; [intros ks k H1 H2; eapply run_program_env_named; eassumption|].
   split; [apply run_program_restores; exact S3|].
   split.
